@@ -4,7 +4,7 @@ The harness owns the encoder, so the list of parts it was given is the oracle; n
 """
 
 BOUNDARIES = [b"=?utf-8?q?bb?=", b"b", b"boundary", b"----WebKitFormBoundary7MA4YWxkTrZu0gW", b"a-b", b"-", b"--", b"x y", b"'()+_,./:=?", b"B" * 70, b"0", b"'frontier-1'", b"'"]
-NAMES = ["f", "name with space", "n;x", "k=v", "naïve", "中文", "a,b", "x'y", " lead", "trail ", "", "file[]", "a;b;c", ";;", "x;y=z;w", "%22pct%0D%0A", "100%", "a%41b", "v\x0bt", "l\u2028s", "n\x85l", "ff\x0c", "fs\x1cgs\x1d",
+NAMES = ["f", "_charset_", "name with space", "n;x", "k=v", "naïve", "中文", "a,b", "x'y", " lead", "trail ", "", "file[]", "a;b;c", ";;", "x;y=z;w", "%22pct%0D%0A", "100%", "a%41b", "v\x0bt", "l\u2028s", "n\x85l", "ff\x0c", "fs\x1cgs\x1d",
          "first  name", "tab\there", "a   b", "=?utf-8?q?field?=", "=?iso-8859-1?b?Zm9v?=", "e\u0301", "\u212b", "*0", "n*", "a:b", "t: 12:30", ":"]  # (only CR and LF break a header line)
 FILENAMES = ["fn.txt", "", "a;b.txt", "файл.bin", "sp ace.tar.gz", "x=y", "semi;colon", "jan;feb;mar.csv", "a;b;c;d", "; filename=evil", "q%22.txt", "nl%0Ax%0D.bin", "p\u2029s.txt", "nel\x85.bin", "vt\x0b.txt", "reports/2024/q1.csv", "/abs.txt", "../up.txt", "dir/",
              "two  blanks.txt", "tab\t.txt", "=?utf-8?q?x?=.txt", "cafe\u0301.txt", "\uf900.bin", "\u212b.dat", "utf-8''x.txt", "report 12:30.txt", "http://x/y.txt", ":"]
